@@ -730,7 +730,12 @@ func tlsSuiteMatrixUnit(part, parts int) harness.Unit {
 		for _, s := range all {
 			for _, sMax := range []uint16{0x0301, 0x0302, 0x0303} {
 				for _, cMax := range []uint16{0x0301, 0x0302, 0x0303} {
-					for _, auth := range []bool{false, true} {
+					for _, authKind := range []int{0, 1, 2} { // none, ECDSA client certificate, RSA client certificate
+						auth := authKind != 0
+						clientCert := p.StdClient
+						if authKind == 2 {
+							clientCert = p.StdClientRSA
+						}
 						for pairing := 0; pairing < 3; pairing++ {
 							n++
 							if n%parts != part {
@@ -753,13 +758,13 @@ func tlsSuiteMatrixUnit(part, parts int) harness.Unit {
 							if pairing == 1 {
 								cc := &stdtls.Config{RootCAs: p.StdRoots, ServerName: tlsk.ServerName, Time: tlsk.FixedTime, MinVersion: 0x0301, MaxVersion: cMax, CipherSuites: []uint16{s.id}}
 								if auth {
-									cc.Certificates = []stdtls.Certificate{stdCert(p.StdClient)}
+									cc.Certificates = []stdtls.Certificate{stdCert(clientCert)}
 								}
 								cs = tlsk.StdEnd(cc, true, app[0], &cv)
 							} else {
 								cc := &gmtls.Config{RootCAs: p.StdRootsG, ServerName: tlsk.ServerName, Time: tlsk.FixedTime, Rand: wire.NewRand(12), MinVersion: 0x0301, MaxVersion: cMax, CipherSuites: []uint16{s.id}}
 								if auth {
-									cc.Certificates = []gmtls.Certificate{p.StdClient}
+									cc.Certificates = []gmtls.Certificate{clientCert}
 								}
 								cs = tlsk.GMEnd(cc, true, app[0], &cv, nil)
 							}
@@ -777,7 +782,7 @@ func tlsSuiteMatrixUnit(part, parts int) harness.Unit {
 								ss = tlsk.GMEnd(sc, false, app[1], &sv, nil)
 							}
 							o := tlsk.Run(cs, ss, &cv, &sv, nil)
-							tag := fmt.Sprintf("suite %04x pinned on both sides, server max %04x, client max %04x, client-auth=%v, pairing %s", s.id, sMax, cMax, auth, []string{"library/library", "crypto-tls client/library server", "library client/crypto-tls server"}[pairing])
+							tag := fmt.Sprintf("suite %04x pinned on both sides, server max %04x, client max %04x, client-auth=%s, pairing %s", s.id, sMax, cMax, []string{"none", "ECDSA certificate", "RSA certificate"}[authKind], []string{"library/library", "crypto-tls client/library server", "library client/crypto-tls server"}[pairing])
 							c.Add("executions", 1)
 							c.Add("transitions", 1)
 							c.DistinctS("states", tag)
@@ -785,7 +790,7 @@ func tlsSuiteMatrixUnit(part, parts int) harness.Unit {
 							if c.WantSample() {
 								c.Sample(tag)
 							}
-							key := fmt.Sprintf("%04x:v=%04x:auth=%v:pairing=%d", s.id, v, auth, pairing)
+							key := fmt.Sprintf("%04x:v=%04x:auth=%d:pairing=%d", s.id, v, authKind, pairing)
 							if o.C.Panic != nil || o.S.Panic != nil || len(o.Stuck) > 0 {
 								c.Violate("tls-suite-matrix:crash-or-hang:"+key, fmt.Sprintf("[%s] %s\n%s", tag, o.Describe(), clip(o.C.Stack+o.S.Stack, 1200)), nil, tag)
 								continue
